@@ -194,7 +194,7 @@ ASSUME = ['non-Exception BaseExceptions propagate (stated: C02_total); exception
 
 def main(argv):
     return run_check('C02', [FaultStream()], argv, trusted_base=TRUSTED, assumptions=ASSUME,
-                     translated=('guard', 'checker'))
+                     translated=('guard', 'checker', 'on_generated'))
 
 
 if __name__ == '__main__':
